@@ -7,12 +7,15 @@ import (
 	"encoding/json"
 	"fmt"
 	"math/rand"
-	"strings"
+	"regexp"
+	"time"
 
 	lucene "github.com/grindlemire/go-lucene"
 )
 
 func newRng(seed int64) *rand.Rand { return rand.New(rand.NewSource(seed)) }
+
+var skipJSON bool
 
 type obsCall struct {
 	Out    string `json:"out"` // ok | err | panic
@@ -20,7 +23,15 @@ type obsCall struct {
 	Marker bool   `json:"marker"`
 	N      int    `json:"n"` // parameters (sqlp) / bytes (others)
 	Msg    string `json:"msg,omitempty"`
+	Ms     int64  `json:"ms"`
 }
+
+// Go's formatting-error markers: %!verb(type=value), %!(EXTRA ...), %!(BADWIDTH) ... (package fmt, "Format errors")
+var markerRE = regexp.MustCompile(`%!([a-zA-Z]\(|\((EXTRA|BADWIDTH|BADPREC|NOVERB|BADINDEX|PANIC))`)
+
+// echoed is the number of marker-looking substrings the input itself contains; a marker is only reported
+// when the output has more of them than the input could have echoed
+var echoed int
 
 func guard(f func() (string, int, error)) (o obsCall) {
 	defer func() {
@@ -28,8 +39,11 @@ func guard(f func() (string, int, error)) (o obsCall) {
 			o = obsCall{Out: "panic", Empty: true, Msg: fmt.Sprint(p)}
 		}
 	}()
+	t0 := time.Now()
 	s, n, err := f()
-	o = obsCall{Out: "ok", Empty: s == "", Marker: strings.Contains(s, "%!"), N: n}
+	ms := time.Since(t0).Milliseconds()
+	defer func() { o.Ms = ms }()
+	o = obsCall{Out: "ok", Empty: s == "", Marker: len(markerRE.FindAllStringIndex(s, -1)) > echoed, N: n}
 	if err != nil {
 		o.Out = "err"
 	}
@@ -40,6 +54,8 @@ func guard(f func() (string, int, error)) (o obsCall) {
 func observeAll(rec *ParseRec) {
 	obs := map[string]any{}
 	q, df := rec.Q, rec.DF
+	echoed = len(markerRE.FindAllStringIndex(q, -1))
+	defer func() { echoed = 0 }()
 	obs["sql"] = guard(func() (string, int, error) {
 		var s string
 		var err error
@@ -64,7 +80,9 @@ func observeAll(rec *ParseRec) {
 	if e := rec.expr; e != nil {
 		obs["str"] = guard(func() (string, int, error) { s := e.String(); return s, len(s), nil })
 		obs["gostr"] = guard(func() (string, int, error) { s := fmt.Sprintf("%#v", e); return s, len(s), nil })
-		obs["json"] = guard(func() (string, int, error) { b, err := json.Marshal(e); return string(b), len(b), err })
+		if !skipJSON {
+			obs["json"] = guard(func() (string, int, error) { b, err := json.Marshal(e); return string(b), len(b), err })
+		}
 	}
 	rec.Obs = obs
 }
